@@ -19,7 +19,7 @@ def run(chk):
     n = chk.pick(400, 8000)
     t1 = os.path.join(d, "export.ndjson")
     rc, so, se = vlib.run_exe(exe, ["out=" + t1, "scen=export", "seed=%d" % (chk.seed * 7919), "runs=%d" % n, "varyScale=8", "exportdir=" + exp,
-                                    "maxMovable=12", "maxNets=14"], timeout=3000)
+                                    "maxMovable=12", "maxNets=14", "translate=1"], timeout=3000)
     if rc != 0:
         raise vlib.FrameworkError("export recorder failed: %s" % (se or "")[-500:])
     t2 = os.path.join(d, "roundtrip.ndjson")
@@ -64,7 +64,7 @@ def run(chk):
             if e["kind"] == "enum":
                 chk.sample({"binding": [e["owner"], e["py"], e["cppClass"] + "::" + e["cpp"]]}, limit=4)
     shutil.rmtree(d, ignore_errors=True)
-    chk.cov["rule"] = ("seeded random circuits inside the text format's range (integer coordinates, sizes < 10^5, all eight orientations, placed by legalization or "
+    chk.cov["rule"] = ("seeded random circuits inside the text format's range (integer coordinates, also translated by 2^24..2^27, sizes < 10^5, all eight orientations, placed by legalization or "
                        "unplaced, all row orientations) exported by the real Circuit::exportIspd and re-read by pycoloquinte/coloquinte.py running against a "
                        "pure-Python stand-in of the compiled module; TLC compares sizes, fixed flags, positions, orientations, connectivity, pin offsets, row "
                        "geometry and orientation, and the wirelength; the complete binding table of module.cpp (enum values, attributes, properties, methods bound "
